@@ -31,6 +31,9 @@ impl<'buf, IO: Io> Connection<'_, 'buf, IO> {
         let mut buffer = [0u8; CONTROL_PACKET_LEN];
         let packet = MqttSerializer::encode(&mut buffer, &disconnect)?;
         self.session.runtime.require_packet_size(packet.len())?;
+        // A cancelled operation may have left a packet half-written: DISCONNECT must not
+        // start in the middle of it.
+        self.finish_in_progress().await?;
         let result = match write_all(&mut self.io, packet).await {
             Ok(()) => self.io.flush().await.map_err(Error::Transport),
             Err(err) => Err(err),
